@@ -149,15 +149,28 @@ def gen_run(out, parts, src, tree):
     fn = T.find_def(tree, "TutteEmbedding.run", TUTTE)
     check_callable(TUTTE, fn, (), ())
     parts.append(("TutteEmbedding.run", T.sha(src, fn)))
-    b = T.body_nodoc(fn)
+    def is_log(st):      # logging is not part of the model
+        return (isinstance(st, ast.Expr) and isinstance(st.value, ast.Call)
+                and (T.dotted(st.value.func) in ("self.log", "print", "self.warn", "warnings.warn")
+                     or (T.dotted(st.value.func) or "").startswith("logging.")))
+    b = [st for st in T.body_nodoc(fn) if not is_log(st)]
+    # ---- gate (must come first); the characteristic may be held in a local first
+    chi_name = None
+    if (b and isinstance(b[0], ast.Assign) and len(b[0].targets) == 1 and isinstance(b[0].targets[0], ast.Name)
+            and isinstance(b[0].value, ast.Call) and T.dotted(b[0].value.func) == "euler_characteristic"):
+        chi_name, chi_call = b[0].targets[0].id, b[0].value
+        b = b[1:]
     if len(b) != 10:
         T.fail(TUTTE, fn, "run() has %d statements, 10 expected (gate, boundary, laplacian, free, border, LI, LB, U, V, scatter)" % len(b))
-    # ---- gate (must come first)
     g = b[0]
-    ok = (isinstance(g, ast.If) and not g.orelse and len(g.body) == 1 and isinstance(g.body[0], ast.Raise)
+    gbody = [st for st in g.body if not is_log(st)] if isinstance(g, ast.If) else []
+    left = g.test.left if isinstance(g, ast.If) and isinstance(g.test, ast.Compare) else None
+    if chi_name is not None and isinstance(left, ast.Name) and left.id == chi_name:
+        left = chi_call
+    ok = (isinstance(g, ast.If) and not g.orelse and len(gbody) == 1 and isinstance(gbody[0], ast.Raise)
           and isinstance(g.test, ast.Compare) and len(g.test.ops) == 1 and type(g.test.ops[0]) in CMPZ
-          and isinstance(g.test.left, ast.Call) and T.dotted(g.test.left.func) == "euler_characteristic"
-          and len(g.test.left.args) == 1 and T.dotted(g.test.left.args[0]) == "self.mesh" and not g.test.left.keywords)
+          and isinstance(left, ast.Call) and T.dotted(left.func) == "euler_characteristic"
+          and len(left.args) == 1 and T.dotted(left.args[0]) == "self.mesh" and not left.keywords)
     if not ok:
         T.fail(TUTTE, g, "first statement is not `if euler_characteristic(self.mesh) <cmp> <int>: raise ...`")
     out.append("Definition gate_reject (chi : Z) : bool := %s."
